@@ -588,6 +588,92 @@ def check_r4(rep):
                                   % (name, dev.short(3), worst, theta), st.file, st.line))
 
 
+def check_r5(rep, objs):
+    """R5: conversions that build a quaternion from an angle (lift_so3, rot_x/y/z) are well conditioned over the whole circle: the first-order
+    rounding model of props/switches.py, evaluated numerically at angles towards the half turn, predicts a unit-norm defect below 100x the
+    single-operation budget 2e-14 (the model is pessimistic; only gross ill-conditioning such as sqrt((1 + cos)/2) near pi is reported)."""
+    import math
+    import re
+    import switches
+    import jet
+    rep.rule("R5", "angle -> quaternion conversions: predicted unit-norm defect from rounding stays below 2e-12 at every angle incl. pi - 10^-k", minimum=4)
+    idx = A.index(objs)
+    targets = []
+    for d in idx:
+        if d.kind in A.FUNCS and d.pattern and A.body(d.node) is not None and d.file and d.file.startswith(fe.INCLUDE):
+            nm = d.qname.split("::")[-1]
+            if nm == "lift_so3" and "SO2" in d.qname:
+                targets.append((d, "so2"))
+            elif nm in ("rot_x", "rot_y", "rot_z") and "SO3" in d.qname:
+                targets.append((d, "angle"))
+    if len(targets) < 4:
+        rep.broke("R5: found %d of lift_so3 / rot_x / rot_y / rot_z" % len(targets))
+        return
+    angles = [math.pi - 10.0 ** (-k) for k in (1, 2, 4, 6, 8)] + [-math.pi + 1e-4, math.pi / 2, 1e-3, 2.0]
+    for d, kind in targets:
+        fn = d.node
+        # coefficient expressions of the quaternion: Eigen::Quaternion<Scalar>(w, x, y, z) or `coeffs() << x, y, z, w`
+        comp = None
+        for x in A.walk(A.body(fn)):
+            if x.get("kind") in ("CXXTemporaryObjectExpr", "CXXUnresolvedConstructExpr", "CXXFunctionalCastExpr", "CXXConstructExpr", "ParenListExpr", "InitListExpr") and "Quaternion<" in A.ntext(x):
+                e = A.to_expr(x)
+                args = e[2] if e[0] in ("ctor", "call") else (e[1] if e[0] == "init" else None)
+                if args and len(args) == 4:
+                    comp = list(args)
+                    break
+        if comp is None:
+            for x in A.walk(A.body(fn)):
+                if x.get("kind") in ("CXXOperatorCallExpr", "BinaryOperator") and "<<" in A.ntext(x) and "coeffs()" in A.ntext(x) and A.to_expr(x)[:2] == ("op", ","):
+                    items = []
+
+                    def flat(e):
+                        if e[0] == "op" and e[1] in ("<<", ","):
+                            flat(e[2])
+                            flat(e[3])
+                        else:
+                            items.append(e)
+                    flat(A.to_expr(x))
+                    if len(items) == 5:
+                        comp = items[1:]
+                        break
+        if comp is None:
+            rep.broke("R5: cannot find the quaternion coefficients in %s" % d.qname)
+            continue
+        ps = [p_.get("name") for p_ in A.params(fn)]
+        worst = None
+        try:
+            for th in angles:
+                class NE(switches.NumErrEnv):
+                    def eve(self, e, th=th):
+                        t = A.show(e)
+                        if re.search(r"(coeffs\(\)|\bc|\bq)\.x\(\)$", t) and kind == "so2":
+                            return math.sin(th), abs(math.sin(th)) * self.u
+                        if re.search(r"(coeffs\(\)|\bc|\bq)\.y\(\)$", t) and kind == "so2":
+                            return math.cos(th), abs(math.cos(th)) * self.u
+                        if re.search(r"log\(\)\.x\(\)$", t) or re.search(r"angle\(\)$", t):
+                            return th, abs(th) * self.u
+                        return super().eve(e)
+                bind = {ps[0]: th} if (kind == "angle" and ps) else {}
+                ne = NE(fn, bind, 2.0 ** -53)
+                vals = [ne.eve(c) for c in comp]
+                defect = sum(2 * abs(v) * er for v, er in vals)
+                if worst is None or defect > worst[0]:
+                    worst = (defect, th)
+        except jet.Unsupported as ex:
+            if "division by zero" in str(ex):
+                worst = (float("inf"), th)
+            else:
+                rep.broke("R5: cannot evaluate the rounding model of %s: %s" % (d.qname, ex))
+                continue
+        ok = worst[0] < 2e-12
+        rep.instance("R5", d.qname, "conditioning", ok=ok, sample={"file": fe.rel(d.file), "line": d.line, "worst_predicted_norm_defect": worst[0], "at_angle": worst[1]})
+        if not ok:
+            rep.violation(Finding("R5", d.qname, "conditioning",
+                                  "the quaternion coefficients are computed by an expression that is ill-conditioned at angle %.9g (pi - %.1e): rounding is amplified to a "
+                                  "predicted unit-norm defect of %.2g (budget 2e-14 per operation); at the half turn itself it divides by zero"
+                                  % (worst[1], math.pi - abs(worst[1]), worst[0]), d.file, d.line))
+
+
 def check(rep, tier, replay=None):
     rep.explanations.append(
         "C15 (sign/normalisation clauses only): the canonical hemisphere q_w >= 0 is shown to be an inductive invariant by reading "
@@ -601,3 +687,4 @@ def check(rep, tier, replay=None):
     check_r2(rep, A.index(d["Impl"]))
     check_r3(rep, d["smooth::SO2"] + d["SO3"])
     check_r4(rep)
+    check_r5(rep, d["smooth::SO2"] + d["SO3"])
